@@ -103,10 +103,20 @@ def run_instance(prop, name, P, tier, seed, budget):
     out = {"property": prop, "lemma": key, "bounds": lem.bounds, "icu": icu_mode, "premise": lem.premise, "doc": lem.doc,
            "known_findings": [], "verdict": None}
     if lem.premise:
+        known_ids = []
         try:
-            ok, detail = lem.fn(P) if lem.params is not None else lem.fn()
+            res = lem.fn(P) if lem.params is not None else lem.fn()
+            ok, detail = res[0], res[1]
+            known_ids = list(res[2]) if len(res) > 2 else []
         except Exception as e:
             ok, detail = False, f"{type(e).__name__}: {e}\n{traceback.format_exc()[-800:]}"
+        # a premise may report that it observed listed known findings (by id); an id that is not listed makes it fail
+        listed = {e.get("id"): e for e in load_known(prop) if e.get("status") == "known"}
+        for kid in known_ids:
+            if kid in listed:
+                out["known_findings"].append({"id": kid, "what": listed[kid]["what"], "still_fails": True})
+            else:
+                ok, detail = False, detail + f" [unlisted finding {kid}]"
         out.update(verdict="PREMISE-OK" if ok else "PREMISE-FAILED", detail=detail, wall=time.time() - t0)
         return out
     harness, before = _build(lem, P)
